@@ -15,6 +15,7 @@ F7_PANIC = ["f7_empty_stale_index", "f7_req_empty", "f7_touch_empty"]
 F7_VARIANT = "f7_unrelated_removed"
 KEY_PANIC = "removeFromInFlightPQ-stale-index"
 KEY_VARIANT = "removeFromInFlightPQ-unrelated-removed"
+KEY_BADFILE = "diskqueue-bad-file-left-behind"
 
 
 def tree_fixed():
@@ -75,6 +76,19 @@ def replay_known(ctx, binp):
         if kv.get("op", "").startswith("panic") or kv.get("u_stuck_in_flight") == "true":
             report(ctx, KEY_VARIANT, "%s: %s" % (F7_VARIANT, " ".join("%s=%s" % x for x in sorted(kv.items()))),
                    open(os.path.join(ROOT, "corpus", "C08", "known", F7_VARIANT + ".sched")).read())
+    rc, kv, out = run_sched(ctx, binp, "dq_bad_file_after_delete")
+    res["dq_bad_file_after_delete"] = kv or {"error": out[-300:]}
+    if not kv:
+        ctx.broken_ties.append("replay dq_bad_file_after_delete did not run (rc=%s)" % rc)
+    else:
+        ctx.evaluations += 1
+        left = [x for x in kv.get("left", "").split(",") if x]
+        if left and all(x.endswith(".bad") for x in left):
+            ctx.violation(KEY_BADFILE, "deleted channel dq:c leaves %s" % left,
+                          open(os.path.join(ROOT, "corpus", "C08", "known", "dq_bad_file_after_delete.sched")).read())
+        elif left:
+            ctx.violation("files-left-behind:replay", "deleted channel dq:c leaves %s" % left,
+                          open(os.path.join(ROOT, "corpus", "C08", "known", "dq_bad_file_after_delete.sched")).read())
     ctx.corr["hook_replays"] = res
 
 
@@ -124,6 +138,12 @@ def life_corr(ctx, binp, corr_broken, seed, n, steps):
             real = set(a.split()[1].split(",")) if len(a.split()) > 1 else set()
             allowed = set(b.split()[1].split(",")) if len(b.split()) > 1 else set()
             extra = sorted(real - allowed)
+            badonly = [x for x in extra if x.endswith("!bad")]
+            extra = [x for x in extra if not x.endswith("!bad")]
+            if badonly:
+                ctx.violation(KEY_BADFILE, "only quarantined .bad files remain for %s after `%s`" % (badonly, last),
+                              json.dumps({"kind": "seed", "test": "TestVerifE5LifeCorr", "seed": seed, "n": n,
+                                          "steps": steps, "line": i, "after": last}))
             if extra:
                 eph = [x for x in extra if x.endswith("#ephemeral") or "#ephemeral:" in x]
                 what = "disk files of %s exist after `%s` (model allows %s)" % (extra, last, sorted(allowed))
